@@ -276,6 +276,10 @@ func PrepareForPackager(
 			continue
 		}
 
+		if err := checkNotRoot(content); err != nil {
+			return nil, err
+		}
+
 		switch content.Type {
 		case TypeDir:
 			// implicit directories at the same destination can just be overwritten
@@ -344,6 +348,21 @@ func PrepareForPackager(
 	sort.Sort(res)
 
 	return res, nil
+}
+
+// checkNotRoot rejects an entry that would itself be the root directory (a
+// forgotten dst, ".", "/.."): nothing but a tree can be placed at "/".
+func checkNotRoot(c *Content) error {
+	if NormalizeAbsoluteFilePath(c.Destination) != "/" {
+		return nil
+	}
+	switch c.Type {
+	case TypeTree, TypeImplicitDir:
+		return nil
+	case TypeConfig, TypeConfigNoReplace, TypeConfigMissingOK, TypeFile, "":
+		return nil // checked per expanded file in addGlobbedFiles
+	}
+	return fmt.Errorf("invalid destination %q for %s: it is the root directory", c.Destination, c.Type)
 }
 
 // lookupDestination returns the content that already occupies dst, no matter
@@ -442,6 +461,9 @@ func addGlobbedFiles(
 ) error {
 	for src, dst := range globbed {
 		dst = NormalizeAbsoluteFilePath(dst)
+		if dst == "/" {
+			return fmt.Errorf("invalid destination %q for %s: it is the root directory", origFile.Destination, src)
+		}
 		presentContent, destinationOccupied := lookupDestination(all, dst)
 		if destinationOccupied {
 			c := *origFile
